@@ -151,8 +151,8 @@ fn judge(rep: &mut Report, s: &Solid) {
     // unit normals
     for (i, n) in nrm.iter().enumerate() {
         let l = len3(*n);
-        rep.worst("normal_length_error", (l - 1.0).abs(), 1e-3, String::new);
-        if (l - 1.0).abs() > 1e-3 {
+        rep.worst("normal_length_error", (l - 1.0).abs(), 2e-5, String::new);
+        if (l - 1.0).abs() > 2e-5 {
             rep.violation(&format!("solid.{kind}.normal_not_unit"), format!("vertex {i} has a normal of length {l:.6}: {:?}", m.verts[i].attrib.0), cj());
             return;
         }
@@ -165,6 +165,61 @@ fn judge(rep: &mut Report, s: &Solid) {
         if e > 1e-4 * extent {
             rep.violation(&format!("solid.{kind}.vertex_off_surface"), format!("vertex {i} at {:?} is {e:.3e} away from the intended surface (extent {extent:.3})", m.verts[i].pos.0), cj());
             return;
+        }
+    }
+    // extents: the solid reaches what its parameters say (a profile one ring
+    // short would still be closed and on the surface)
+    {
+        let (ylo, yhi) = pos.iter().fold((f64::INFINITY, f64::NEG_INFINITY), |(lo, hi), p| (lo.min(p[1]), hi.max(p[1])));
+        let (rlo, rhi) = pos.iter().fold((f64::INFINITY, f64::NEG_INFINITY), |(lo, hi), p| {
+            let r = (p[0] * p[0] + p[2] * p[2]).sqrt();
+            (lo.min(r), hi.max(r))
+        });
+        let want: Option<(f64, f64, Option<(f64, f64)>)> = match *s {
+            Solid::Cylinder { .. } | Solid::Cone { .. } | Solid::PartialLathe { .. } => Some((-1.0, 1.0, None)),
+            Solid::Capsule { radius, .. } => Some((-1.0 - radius as f64, 1.0 + radius as f64, None)),
+            Solid::Sphere { radius, .. } => Some((-(radius as f64), radius as f64, None)),
+            Solid::Torus { major, minor, .. } => Some((-(minor as f64), minor as f64, Some((major as f64 - minor as f64, major as f64 + minor as f64)))),
+            _ => None,
+        };
+        if let Some((wlo, whi, rho)) = want {
+            // a torus with 3 or 4 minor sectors does not reach ±minor in y
+            let ytol = match *s {
+                Solid::Torus { minor, minor_sectors, .. } => minor as f64 * (1.0 - (std::f64::consts::PI / minor_sectors as f64).cos()) + 1e-4 * extent,
+                Solid::Sphere { .. } => 1e-4 * extent,
+                _ => 1e-4 * extent,
+            };
+            let mut bad = (ylo - wlo).abs() > ytol || (yhi - whi).abs() > ytol;
+            if let Some((a, b)) = rho {
+                // the tube's circle is sampled at minor_sectors points: the
+                // innermost point is reached only up to the sagitta
+                bad |= (rlo - a).abs() > ytol || (rhi - b).abs() > ytol;
+            }
+            if bad {
+                rep.violation(&format!("solid.{kind}.extent_wrong"), format!("vertices span y in [{ylo}, {yhi}] and distance from the axis in [{rlo}, {rhi}]; the parameters call for y in [{wlo}, {whi}]{}", rho.map(|(a, b)| format!(" and axis distance in [{a}, {b}]")).unwrap_or_default()), cj());
+                return;
+            }
+            rep.count("extents_checked");
+        }
+        if let Solid::PartialLathe { az0, az1, .. } = *s {
+            // every vertex off the axis lies within the requested azimuth
+            // range, and both ends of the range are reached
+            let span = (az1 - az0) as f64;
+            let (mut lo, mut hi) = (f64::INFINITY, f64::NEG_INFINITY);
+            for p in &pos {
+                if p[0] * p[0] + p[2] * p[2] > 1e-12 * extent * extent {
+                    let a = p[2].atan2(p[0]) / std::f64::consts::TAU;
+                    let rel = (a - az0 as f64).rem_euclid(1.0);
+                    let rel = if rel > 1.0 - 1e-4 { rel - 1.0 } else { rel };
+                    lo = lo.min(rel);
+                    hi = hi.max(rel);
+                }
+            }
+            if lo.is_finite() && (lo.abs() > 1e-4 || (hi - span).abs() > 1e-4) {
+                rep.violation("solid.partial_lathe.azimuth_range_wrong", format!("vertices span azimuths {lo:.5}..{hi:.5} turns past the start of the range; the range is {span:.5} turns wide"), cj());
+                return;
+            }
+            rep.count("azimuth_ranges_checked");
         }
     }
     // merge coincident vertices: union-find over a spatial hash
@@ -214,6 +269,21 @@ fn judge(rep: &mut Report, s: &Solid) {
         grid.entry(c).or_default().push(i);
     }
     let id: Vec<usize> = (0..nv).map(|i| find(&mut parent, i)).collect();
+    // A ring whose chord is about as long as the weld tolerance would be welded
+    // in part (neighbours along one axis only): the topology of what remains
+    // says nothing about the mesh. Such cases are counted and not judged
+    // topologically; everything above still applies to them.
+    let weld_ambiguous = m.faces.iter().any(|t| {
+        [(t.0[0], t.0[1]), (t.0[1], t.0[2]), (t.0[2], t.0[0])].iter().any(|&(i, j)| {
+            let d = sub3(pos[i], pos[j]);
+            let q = (0..3).map(|k| d[k].abs() / tol3[k]).fold(0.0, f64::max);
+            q > 0.5 && q < 2.0
+        })
+    });
+    if weld_ambiguous {
+        rep.count("weld_ambiguous(edge ≈ weld tolerance; topology unjudged)");
+        return;
+    }
 
     // faces: winding vs normals, signed volume, directed edges
     let mut vol = 0.0;
@@ -227,7 +297,11 @@ fn judge(rep: &mut Report, s: &Solid) {
         let (ia, ib, ic) = (id[a], id[b], id[c]);
         let collapsed = ia == ib || ib == ic || ia == ic;
         // relative area threshold for "non-degenerate"
-        if collapsed || len3(g) < 1e-7 * extent * extent {
+        // non-degenerate = the triangle's angles are not all ≈ 0 or π: the
+        // threshold is on |sin| of the angle at a, so that small or thin but
+        // well-shaped faces are judged at every scale
+        let (e1, e2) = (len3(sub3(pos[b], pos[a])), len3(sub3(pos[c], pos[a])));
+        if collapsed || len3(g) < 1e-5 * e1 * e2 {
             degenerate += 1;
             if !collapsed {
                 // a sliver that does not collapse under merging still counts as a face topologically
@@ -280,7 +354,71 @@ fn judge(rep: &mut Report, s: &Solid) {
         }
         rep.count("closed_solids_watertight");
     } else {
+        // open surfaces: still a consistently wound manifold with boundary —
+        // no directed edge twice, interior edges paired with their reverse,
+        // and the Euler characteristic of a tube (0) or of a disk (1)
+        let mut und: std::collections::HashSet<(usize, usize)> = std::collections::HashSet::new();
+        let mut boundary = 0usize;
+        for (&(x, y), &n) in &edges {
+            let rev = edges.get(&(y, x)).copied().unwrap_or(0);
+            if n != 1 || rev > 1 {
+                rep.violation(&format!("solid.{kind}.inconsistent_winding"), format!("after merging coincident vertices the directed edge ({x}→{y}) occurs {n} time(s) and its reverse {rev} time(s): neighbouring faces are wound against each other or overlap"), cj());
+                return;
+            }
+            if rev == 0 {
+                boundary += 1;
+            }
+            und.insert((x.min(y), x.max(y)));
+        }
+        let used: std::collections::HashSet<usize> = edges.keys().flat_map(|&(x, y)| [x, y]).collect();
+        let chi = used.len() as i64 - und.len() as i64 + nf;
+        let want_chi = match *s {
+            Solid::PartialLathe { az0, az1, .. } if ((az1 - az0).abs() - 1.0).abs() > 1e-3 => 1,
+            _ => 0,
+        };
+        if nf > 0 && (chi != want_chi || boundary == 0) {
+            rep.violation(&format!("solid.{kind}.euler_characteristic"), format!("open surface: V−E+F = {}−{}+{nf} = {chi} (expected {want_chi}), {boundary} boundary edges", used.len(), und.len()), cj());
+            return;
+        }
         rep.count("open_surfaces_checked");
+    }
+    // Platonic solids: the documented vertex and face counts, all edges of one
+    // length (triangular faces), the documented circumradius
+    let plat: Option<(usize, usize, Option<f64>, bool)> = match s {
+        Solid::Tetra => Some((4, 4, Some(1.0), true)),
+        Solid::Octa => Some((6, 8, Some(1.0), true)),
+        // (the listed coordinates of these two are given up to scale; that all
+        // vertices are equidistant from the centre is checked above)
+        Solid::Icosa => Some((12, 20, None, true)),
+        Solid::Dodeca => Some((20, 36, None, false)),
+        _ => None,
+    };
+    if let Some((want_v, want_f, radius, equilateral)) = plat {
+        let distinct: std::collections::HashSet<usize> = id.iter().copied().collect();
+        let mut bad = vec![];
+        if distinct.len() != want_v {
+            bad.push(format!("{} distinct vertices (a regular one has {want_v})", distinct.len()));
+        }
+        if m.faces.len() != want_f {
+            bad.push(format!("{} triangles (expected {want_f})", m.faces.len()));
+        }
+        if let Some(r) = radius {
+            if let Some(p) = pos.iter().find(|p| (len3(**p) - r).abs() > 1e-5 * r) {
+                bad.push(format!("vertex {p:?} at distance {} from the centre, documented coordinates give {r}", len3(*p)));
+            }
+        }
+        if equilateral {
+            let ls: Vec<f64> = m.faces.iter().flat_map(|t| [(t.0[0], t.0[1]), (t.0[1], t.0[2]), (t.0[2], t.0[0])]).map(|(i, j)| len3(sub3(pos[i], pos[j]))).collect();
+            let (lo, hi) = ls.iter().fold((f64::INFINITY, 0.0f64), |(lo, hi), l| (lo.min(*l), hi.max(*l)));
+            if hi - lo > 1e-5 * hi {
+                bad.push(format!("edge lengths range from {lo} to {hi}"));
+            }
+        }
+        if !bad.is_empty() {
+            rep.violation(&format!("solid.{kind}.not_regular"), bad.join("; "), cj());
+            return;
+        }
+        rep.count("platonic_regularity_checked");
     }
 }
 
@@ -362,7 +500,7 @@ pub fn run(cfg: &Cfg, rep: &mut Report) {
         let s = match rng.below(6) {
             0 => {
                 let az0 = rng.f32_in(-1.0, 1.0);
-                Solid::PartialLathe { sectors: sec, segments: seg, r0: r, r1: r * rng.f32_in(0.2, 2.0), az0, az1: az0 + rng.f32_in(0.05, 0.95), capped: false }
+                Solid::PartialLathe { sectors: sec, segments: seg, r0: r, r1: r * rng.f32_in(0.2, 2.0), az0, az1: az0 + rng.f32_in(0.05, 0.95), capped: rng.bool() }
             }
             1 => Solid::Sphere { sectors: sec, segments: seg.max(2), radius: r },
             2 => Solid::Torus { major: r * rng.f32_in(1.1, 5.0), minor: r, major_sectors: sec, minor_sectors: seg.max(3) },
@@ -381,4 +519,7 @@ pub fn run(cfg: &Cfg, rep: &mut Report) {
     }
     rep.floor("closed_solids_watertight", 2_000);
     rep.floor("open_surfaces_checked", 500);
+    rep.floor("extents_checked", 2_000);
+    rep.floor("azimuth_ranges_checked", 200);
+    rep.floor("platonic_regularity_checked", 4);
 }
